@@ -73,7 +73,9 @@ func runRaceStress(a *args, res *result) {
 	}
 	// the /const and /mod2 kinds put every key into one or two bucket chains with one 7-bit
 	// hash, so that every lookup walks freshly appended overflow buckets and entries
-	kinds := []string{"Map", "MapOf[int,*payload]", "Cache", "CacheOf[int,*payload]", "MapOf[int,*payload]/const", "MapOf[int,*payload]/mod2"}
+	// the string / struct / interface key kinds reach the other branches of the default hasher
+	kinds := []string{"Map", "MapOf[int,*payload]", "Cache", "CacheOf[int,*payload]", "MapOf[int,*payload]/const", "MapOf[int,*payload]/mod2",
+		"MapOf[string,*payload]", "MapOf[skey,*payload]", "MapOf[any,*payload]"}
 	// perturbation is configured once, before any goroutine runs library code:
 	// janitors of earlier configurations may still be alive later on
 	level := 0
@@ -163,7 +165,7 @@ func runRaceCfg(cfg raceCfg, r rng, res *result) {
 		seeds[i] = r.Uint64()
 	}
 	switch cfg.kind {
-	case "Map", "MapOf[int,*payload]", "MapOf[int,*payload]/const", "MapOf[int,*payload]/mod2":
+	case "Map", "MapOf[int,*payload]", "MapOf[int,*payload]/const", "MapOf[int,*payload]/mod2", "MapOf[string,*payload]", "MapOf[skey,*payload]", "MapOf[any,*payload]":
 		flavor, hasher, _ := strings.Cut(cfg.kind, "/")
 		m := newMap(mapSpec{Flavor: flavor, Hasher: hasher, Hint: noHint, NKeys: cfg.keys})
 		for g := 0; g < cfg.goroutines; g++ {
